@@ -181,7 +181,8 @@ def composition_contract(L):
 
     def instances(tier):
         out = []
-        fam = [(1, 1), (2, 1), (1, 2)] if tier == "quick" else [(q, 1) for q in range(0, 7)] + [(2, 2)]
+        fam = [(1, 1), (2, 1), (1, 2)] if tier == "quick" else [(q, 1) for q in range(0, 7)] + [(1, 2)] + ([(2, 2)] if L is not G.DenseL else [])
+        # (dense, q=2, d=2) needs > 20 GB and an hour under load (6x6 symbolic QR): left out, (1,2) and (2,1) cover both axes
         for q, d in fam:
             def make(rng, q=q, d=d):
                 sigma = jnp.asarray(rng.uniform(0.5, 2.0, size=(d,) if L is BlockL else ()))
